@@ -93,6 +93,12 @@ def run(ctx):
         # keep deltas representable and records small enough for all-flips
         a[1][4] = ("A", a[1][4][1][: rng.choice([1, 2, 3])])
         news.append(a)
+    for nh in (64, 128, 130):       # many headers: the header count is a zig-zag varint
+        a = recgen.gen_new_batch(rng, whole_seconds=True)
+        r0 = list(a[1][4][1][0][1])
+        r0[5] = ("A", [("E", [("Y", b"h%d" % j), ("Y", b"v" * (j % 3))]) for j in range(nh)])
+        a[1][4] = ("A", [("E", r0)])
+        news.append(a)
     wires = [recgen.derive_wire(a) for a in news]
     # batches as a broker may return them, not only as write_new_batch produces them: no records at
     # all (a compacted batch), header fields that are not functions of the records
